@@ -37,7 +37,7 @@ def worker_init():
     K.reset_registries()
 
 
-ROUTES = ["arrays", "frame_default", "frame_shift", "frame_perm_labels", "frame_string_labels", "frame_float_labels",
+ROUTES = ["shorthand_keywords", "arrays", "frame_default", "frame_shift", "frame_perm_labels", "frame_string_labels", "frame_float_labels",
           "int_literals", "material_dict", "from_isotherm", "clone", "below_threshold", "negative_zero", "after_reads",
           "branch_as_bool", "branch_as_float", "meta_order", "temperature_literal", "meta_nan", "meta_tuple_export", "export_parse_json", "export_parse_json"]
 
@@ -63,11 +63,15 @@ def _frame(d, p, l, branch_col=None, index=None):
     return pd.DataFrame(data, index=index)
 
 
-def _build(d, p, l, material=None, via="lists", index=None, branch_override=None, extra=None):
+def _build(d, p, l, material=None, via="lists", index=None, branch_override=None, extra=None, shorthand=0):
     if extra is not None:
         d = dict(d, extra=extra)
     material = material if material is not None else K.build_material(d["material"])
     kw = _kwargs(d, material)
+    # the documented shorthand keywords m / a / t for material / adsorbate / temperature (bit mask)
+    for bit, (long, short) in enumerate((("material", "m"), ("adsorbate", "a"), ("temperature", "t"))):
+        if shorthand >> bit & 1 and kw[long]:
+            kw[short] = kw.pop(long)
     branch = d.get("branch", "guess") if branch_override is None else branch_override
     if via == "lists" and not d.get("extra"):
         b = [bool(x) for x in branch] if isinstance(branch, list) else branch
@@ -130,6 +134,9 @@ def check_same(desc, ctx):
         b = _build(d, [int(v) for v in p], [int(v) for v in l], extra=exb or None)
     elif route == "material_dict":
         b = _build(d, p, l, material=dict(d["material"]))
+    elif route == "shorthand_keywords":
+        b = _build(d, p, l, shorthand=1 + desc["k"] % 7)
+        ctx.label("shorthand_mask_%d" % (1 + desc["k"] % 7))
     elif route == "from_isotherm":
         if d.get("branch") != "guess" or d.get("extra"):
             b = K.clone_point(a)
